@@ -305,7 +305,7 @@ class WorldGen:
             emitted = not (s == 0 and arr)
             need = 0 if (packed or a == 0) else (-off) % a
             base_total = sum(b_.size for b_ in bases)
-            if a > 1 and not packed and self.nearmiss is None and rng.random() < o.p_nearmiss * (1.0 if (bases and not is_base and base_total % a) else 0.25):
+            if a > 1 and not packed and self.nearmiss is None and rng.random() < o.p_nearmiss * (5.0 if (bases and not is_base and base_total % a) else 0.25):
                 # near miss: the field ends up at an offset that is not a multiple of its alignment
                 need = ((-off) % a + rng.choice([1, a // 2 or 1])) % a or 1
                 if bases and not is_base and base_total % a:
